@@ -54,8 +54,9 @@ LEVEL_NOTE = "no re-entrant callbacks, no self-returning callbacks, no waits-on 
 KNOWN_STRANDED = "Deferred:callbacks-stranded-behind-paused-chained-Deferred"
 
 
-def _fam(n, kinds, behs, pairs, depth, pauses=2, tpairs=99, sub=False):
-    return dict(n=n, kinds=kinds, behs=behs, pairs=pairs, depth=depth, pauses=pauses, tpairs=tpairs, sub=sub)
+def _fam(n, kinds, behs, pairs, depth, pauses=2, tpairs=99, sub=False, re=(), pbehs="v"):
+    return dict(n=n, kinds=kinds, behs=behs, pairs=pairs, depth=depth, pauses=pauses, tpairs=tpairs, sub=sub,
+                re=list(re), pbehs=pbehs)
 
 
 # one BFS per family (cross-shard splitting of one BFS re-explores most states, measured 6x waste):
@@ -73,6 +74,7 @@ CFG = {
         "3-cb": _fam(3, "cb", "vx", 2, 8, tpairs=3, sub=True),
         "3-structure": _fam(3, "b", "v", 2, 10, pauses=3),
         "4-structure": _fam(4, "b", "v", 1, 9),
+        "2-reent": _fam(2, "cb", "vx", 2, 6, re=("rcv", "rbv", "rcd", "rbd", "ac", "ab"), pbehs="vx"),
     },
     "thorough": {
         "2-deep": _fam(2, "ceb", "vx", 3, 10),
@@ -102,15 +104,15 @@ class TokBaseErr(BaseException):
 class Need(Exception):
     """the reference is about to run a callback whose behaviour is not chosen yet"""
 
-    def __init__(self, cid, i):
-        self.cid, self.i = cid, i
+    def __init__(self, cid, i, plain=False):
+        self.cid, self.i, self.plain = cid, i, plain
 
 
 # ---------------------------------------------------------------- reference interpreter
 
 class MD:
     """Reference model of one Deferred."""
-    __slots__ = ("fired", "upause", "wait", "result", "pending")
+    __slots__ = ("fired", "upause", "wait", "result", "pending", "running")
 
     def __init__(self):
         self.fired = False
@@ -118,6 +120,7 @@ class MD:
         self.wait = None       # index of the Deferred this one waits on
         self.result = None     # None | ("ok", tok) | ("fail", tok) | ("def", j)
         self.pending = []      # ("pair", kind, cid_success, cid_error) | ("cont", waiter)
+        self.running = False   # one of this Deferred's callbacks is executing right now (only during a step)
 
     def paused(self):
         return self.upause > 0 or self.wait is not None
@@ -126,6 +129,7 @@ class MD:
         c = MD.__new__(MD)
         c.fired, c.upause, c.wait, c.result = self.fired, self.upause, self.wait, self.result
         c.pending = list(self.pending)
+        c.running = False
         return c
 
 
@@ -142,6 +146,7 @@ class Model:
         self.log = []         # this step: (i, cid, input)
         self.stack = []
         self.script = {}
+        self.readd = {}       # this step: running callback id -> id of the callback it added re-entrantly
 
     def copy(self):
         c = Model.__new__(Model)
@@ -153,6 +158,7 @@ class Model:
         c.log = []
         c.stack = []
         c.script = {}
+        c.readd = {}
         return c
 
     def touch(self, i):
@@ -194,10 +200,41 @@ class Model:
                 continue
             beh = self.script.get(cid)
             if beh is None:
-                raise Need(cid, i)
+                raise Need(cid, i, e[1] in "CB")
             D.pending.pop(0)
             self.log.append((i, cid, D.result))
             k = beh[0]
+            if k in "ra":
+                # re-entrant behaviour: while this callback is executing it adds one plain callback
+                # (beh[1]: c=addCallback b=addBoth) to its own Deferred ("r") or to d_t ("a"), then returns
+                # a value / d_j.  Documented rule: a Deferred whose callback is executing never starts
+                # another of its callbacks; the new one is appended and runs after this one has returned,
+                # with what it returned.  An add to another Deferred is an ordinary add on that Deferred.
+                t = i if k == "r" else int(beh[2:])
+                c2 = self.ncid
+                self.ncid += 1
+                self.readd[cid] = c2
+                self.touch(t)
+                T = self.m[t]
+                T.pending.append(("pair", beh[1].upper(), c2, c2 if beh[1] == "b" else None))
+                D.running = True
+                if t == i:
+                    self.flags.add("reentrant-add-own")
+                elif T.running:
+                    self.flags.add("reentrant-add-other-running")
+                elif not T.fired:
+                    self.flags.add("reentrant-add-other-unfired")
+                elif T.paused():
+                    self.flags.add("reentrant-add-other-paused")
+                else:
+                    self.flags.add("reentrant-add-other-runs-now" if t not in self.stack else
+                                   "reentrant-add-to-the-Deferred-that-resumed-us")
+                    self.run(t)
+                D.running = False
+                beh = beh[2:] if k == "r" else "v"
+                k = beh[0]
+                if k == "d":
+                    self.flags.add("reentrant-add-own-then-return-deferred")
             if k == "v":
                 D.result = ("ok", ("v", cid))
             elif k == "x":
@@ -208,6 +245,10 @@ class Model:
                 j = int(beh[1:])
                 self.touch(j)
                 E = self.m[j]
+                if E.running:
+                    # a callback returned a Deferred that is itself in the middle of a callback: the
+                    # statement's interpreter has no rule for it; leave the scope (accept everything)
+                    self.open = True
                 if E.fired and E.wait is None and E.upause == 0:
                     self.flags.add("steal-" + ("none" if E.result == ("ok", None) else E.result[0]))
                     D.result = E.result
@@ -228,6 +269,7 @@ class Model:
         self.log = []
         self.stack = []
         self.strand = set()
+        self.readd = {}
         M = self.m[i]
         self.touch(i)
         if op == "add":
@@ -275,8 +317,10 @@ class Model:
             raise ValueError(op)
 
 
-def scripts_for(model, op, i, kind, base=("v", "x", "f")):
-    """every complete assignment of behaviours to the callbacks the reference runs for this operation"""
+def scripts_for(model, op, i, kind, base=("v", "x", "f"), re=(), pbehs="v"):
+    """every complete assignment of behaviours to the callbacks the reference runs for this operation;
+    re = re-entrant behaviour templates (rcv rbv: add to own Deferred, return a value; rcd rbd: add to own,
+    return d_j; ac ab: add to d_j, return a value); callbacks added re-entrantly are plain (pbehs)"""
     out = []
     work = [()]
     while work:
@@ -285,7 +329,18 @@ def scripts_for(model, op, i, kind, base=("v", "x", "f")):
         try:
             m2.apply(op, i, kind, dict(sc))
         except Need as need:
-            behs = list(base) + ["d%d" % j for j in range(min(m2.nt + 1, m2.n)) if j != need.i]
+            if need.plain:
+                behs = list(pbehs)
+            else:
+                others = [j for j in range(min(m2.nt + 1, m2.n)) if j != need.i]
+                behs = list(base) + ["d%d" % j for j in others]
+                for t in re:
+                    if t[0] == "r" and t[2] == "v":
+                        behs.append(t)
+                    elif t[0] == "r":
+                        behs.extend("%sd%d" % (t[:2], j) for j in others)
+                    else:
+                        behs.extend("%s%d" % (t, j) for j in others)
             for b in reversed(behs):
                 work.append(sc + ((need.cid, b),))
         else:
@@ -332,6 +387,7 @@ class St:
         self.ids = {id(d): i for i, d in enumerate(self.d)}
         self.model = Model(self.n)
         self.rlog = []         # this step: (i, cid, input)
+        self.active = {}       # Deferred index -> number of its callbacks executing right now
         self.count = {}
         self.script = {}
         self.flags = set()
@@ -360,11 +416,33 @@ def mkfn(st, i, cid, slot):
     def fn(arg, *a, **kw):
         st.count[cid] = st.count.get(cid, 0) + 1
         st.rlog.append((i, cid, classify(st, arg)))
+        if st.active.get(i):
+            st.bad.append(("Deferred:callback-ran-nested-inside-running-callback",
+                           "callback #%d of d%d started (input %r) while another callback of d%d had not returned yet"
+                           % (cid, i, classify(st, arg), i)))
+        st.active[i] = st.active.get(i, 0) + 1
+        try:
+            return body(arg, a, kw)
+        finally:
+            st.active[i] -= 1
+
+    def body(arg, a, kw):
         if a != (cid,) or kw != {"k": cid}:
             st.bad.append(("Deferred:callback-extra-arguments-mismatch:" + slot,
                            "callback #%d registered with (%d, k=%d) was called with %r %r" % (cid, cid, cid, a, kw)))
         beh = st.script.get(cid, "v")
         kind = beh[0]
+        if kind in "ra":
+            # re-entrant: add one plain callback to the own Deferred (r) / to d_t (a) from inside the callback
+            t = i if kind == "r" else int(beh[2:])
+            c2 = st.model.readd.get(cid, 100000 + cid)      # ids are labels; the reference numbered them
+            f2 = mkfn(st, t, c2, beh[1].upper())
+            dt = st.d[t]
+            r = dt.addCallback(f2, c2, k=c2) if beh[1] == "c" else dt.addBoth(f2, c2, k=c2)
+            if r is not dt:
+                st.bad.append(("Deferred:add-does-not-return-self", "re-entrant add on d%d returned %r" % (t, r)))
+            beh = beh[2:] if kind == "r" else "v"
+            kind = beh[0]
         tok = (kind, cid)
         if kind == "v":
             return tok
@@ -387,6 +465,7 @@ def apply(st, ev):
     mo = st.model
     st.lastop = op
     st.rlog = []
+    st.active = {}
     st.script = script
     c = mo.ncid
     mo.apply(op, i, kind, script)        # a Need here is a harness bug (scripts come from scripts_for)
@@ -453,7 +532,7 @@ def enabled(st):
                 core.append(("add", i, kind))
     evs = []
     for op, i, kind in core:
-        for sc in scripts_for(mo, op, i, kind, cfg.get("behs", "vxf")):
+        for sc in scripts_for(mo, op, i, kind, cfg.get("behs", "vxf"), cfg.get("re", ()), cfg.get("pbehs", "v")):
             evs.append((op, i, kind, [list(x) for x in sc]))
     return evs
 
